@@ -2,6 +2,8 @@
 import re
 from checklib.main import Stream
 from checks.C11 import hx
+from checklib import main as M
+from checks import C04 as _c04
 
 TARGETS = ['t0', 't1', 't2', 't', 'tv_harness', 'tv_harness::pool', 'tv', 'x']
 LEVELS = ['off', 'error', 'warn', 'info', 'debug', 'trace']
@@ -98,6 +100,27 @@ def _match(spec, impl):
     a = spec.split(); b = impl.split()
     return len(a) == len(b) and all(x == y or x == 'c:*' for x, y in zip(a, b))
 
+def extra(tier, seed, rng, res, broken):
+    """a reload (mutate, then rebuild — the order extracted from Handle::modify) racing with first-hit registrations on other
+    threads, under generated schedules; judged by C04's transition system and the quiescent oracle"""
+    n = 60 if (tier == 'quick' and not broken) else 600
+    cases = M.corpus_cases('C12', 'race') + [_c04.gen_scenario(rng, force_mut=True) for _ in range(n)]
+    outs, err = M.run_per_process([M.bin_path('h_race')], cases, timeout=30)
+    if err:
+        res.errors.append('race stream: %s' % err); return
+    verdicts, err = M.driver('C04', 'judge', [c + ' => ' + o for c, o in zip(cases, outs)])
+    if err:
+        res.errors.append('race judge: %s' % err); return
+    hard = []; soft = []
+    for c, o, v in zip(cases, outs, verdicts):
+        res.evaluations += 1
+        k = 'race reload=%s first-hit=%s' % ('y' if 'mutated' in o else 'n', 'y' if 'register:computed' in o else 'n')
+        res.hist[k] = res.hist.get(k, 0) + 1
+        if 'mutated' in o and 'register:computed' in o: res.nontrivial.add('race ' + c)
+        if v != 'ok':
+            (hard if ('stranded' in v or 'DEADLOCK' in v or 'PANIC' in v or 'wrong-delivery' in v) else soft).append(('race', c, o, 'judge ' + v))
+    res.spec_failures.extend(hard if hard else soft)
+
 _s = Stream('hist', 'h_reload', gen=gen, per_process=True, nontrivial=nontrivial, spec_mode='spec')
 _s.spec_match = _match
 
@@ -116,12 +139,13 @@ PROPERTY = {
     },
     'lean_module': 'TracingModel.Props.C12',
     'namespace': 'C12',
-    'units': ['ReloadOrder'],
-    'required_theorems': ['C12.modify_order', 'C12.reload_establishes', 'C12.after_return', 'C12.emit_spec', 'C12.stack_hint_sound', 'C12.racing_old_or_new', 'C12.gone_is_error'],
+    'units': ['ReloadOrder', 'RegistryLocks'],
+    'required_theorems': ['C12.modify_order', 'C12.reload_establishes', 'C12.after_return', 'C12.emit_spec', 'C12.stack_hint_sound', 'C12.racing_old_or_new', 'C12.gone_is_error', 'C12.reload_racing_registration', 'C12.lock_discipline'],
     'streams': [_s],
+    'extra_bins': ['h_race'],
     'rule': 'one case = one history in a fresh process: a stack of 1-4 layers (plain / global filter / per-layer filtered) with 1-4 reloadable slots (reload::Subscriber as a global filter layer or as a per-layer filter), '
             '12-40 ops: emissions from 4-12 of the 30 real macro callsites on 3 threads in 2 contexts, reloads to level / Targets / EnvFilter / FilterFn / DynFilterFn / None / and-or-not values, LevelFilter::current(), '
-            'dropping the collector and reloading afterwards; the pool metadata table is compared first. non-trivial = some (callsite, context) is judged differently after a reload',
+            'dropping the collector and reloading afterwards; the pool metadata table is compared first. race phase: a reload-style mutate-then-rebuild racing with first-hit registrations of shared callsites on 2-3 real threads under generated schedules (yield hooks), judged by the transition system of C04 and the quiescent oracle. non-trivial = some (callsite, context) is judged differently after a reload',
     'trusted_base': ['hand-written model Core/Reload.lean over Core/Filtering.lean', 'translator unit ReloadOrder (step order of Handle::modify)', 'executor h_reload (real Registry, reload handles, macro callsites, 3 threads)'],
     'assumptions': ['sequential consistency at op granularity (racing reads are a theorem over the model, see note)'],
 }
